@@ -63,7 +63,11 @@ def compute_signature(
             # Hash on UFL signature and points
             signature = ufl.algorithms.signature.compute_expression_signature(expr, rn)
             object_signature += signature
-            object_signature += repr(points)
+            # Hash the exact point values: repr() rounds to 8 digits and elides the
+            # middle of large arrays, so different point sets shared a signature
+            points = np.ascontiguousarray(points)
+            object_signature += hashlib.sha1(points).hexdigest()
+            object_signature += str(points.shape) + str(points.dtype)
 
             kind = "expression"
         else:
